@@ -32,6 +32,16 @@ type c07State struct {
 	*env
 	limit int64
 	pages []string // query strings of recent "next page" links (any repository, subject, filter)
+	chain *c07Chain
+}
+
+// c07Chain: a client that pages through a listing slowly, while other operations happen between its requests.
+type c07Chain struct {
+	rn, sd   string
+	next     string          // target of the next request ("" = finished)
+	seen     map[string]bool // digests delivered so far
+	required map[string]bool // referrers that were present when the chain started and have been ever since
+	steps    int
 }
 
 func (s *c07State) bad(r resp, what string) {
@@ -164,6 +174,62 @@ func (s *c07State) readReferrers(rn, sd, filter string, tag string) {
 	}
 }
 
+// chainStep issues the next request of the slow client. When the chain ends (no Link), everything that has been a
+// referrer of the subject from the first request to the last must have been delivered on some page: the listing may
+// change under the client, and the server may restart it from the first page, but it may not skip what was there all along.
+func (s *c07State) chainStep() {
+	c := s.chain
+	mr := s.repo(c.rn)
+	if mr.refFuzzy[c.sd] {
+		s.chain = nil
+		return
+	}
+	// what has been deleted since the start is no longer required
+	cur := s.wantSet(c.rn, c.sd, "")
+	for d := range c.required {
+		if _, ok := cur[d]; !ok {
+			delete(c.required, d)
+		}
+	}
+	r := s.do("GET", c.next, nil, nil)
+	c.steps++
+	s.logf("chainStep %d: GET %s -> %d", c.steps, trunc([]byte(c.next), 160), r.code)
+	s.bad(r, "GET "+c.next)
+	var idx mbody
+	_ = json.Unmarshal(r.body, &idx)
+	for _, x := range idx.Manifests {
+		c.seen[x.Digest] = true
+		if m := mr.everMans[x.Digest]; m == nil || m.subject != c.sd {
+			s.fail("referrer-extra", "GET %s lists %s, which never was a manifest of %s with subject %s", c.next, short(x.Digest), c.rn, short(c.sd))
+		}
+	}
+	c.next = ""
+	if l := r.hdr.Get("Link"); l != "" && strings.Contains(l, "<") && strings.Contains(l, ">") {
+		c.next = l[strings.Index(l, "<")+1 : strings.Index(l, ">")]
+	}
+	if c.next != "" && c.steps > 40 {
+		s.fail("page-termination", "a slow client is still being handed next links after %d requests", c.steps)
+	}
+	if c.next != "" {
+		return
+	}
+	s.class("slow-chain-finished")
+	if c.steps >= 2 {
+		s.class("slow-chain>=2-requests")
+	}
+	for d := range c.required {
+		if c.seen[d] {
+			continue
+		}
+		m := mr.mans[d]
+		if m != nil && s.limit > 0 && singlePageSize(mdesc{MediaType: m.mt, Digest: d, Size: int64(len(m.raw)), ArtifactType: m.at, Annotations: m.ann}) > s.limit {
+			continue
+		}
+		s.fail("referrer-skipped-by-paging", "a client paged through referrers/%s of %s in %d requests (other requests happened in between); %s was a referrer from its first request to its last and was on none of the pages it got: %v", short(c.sd), c.rn, c.steps, short(d), shortList(sortedKeys(c.seen)))
+	}
+	s.chain = nil
+}
+
 func shortList(ds []string) []string {
 	out := make([]string, len(ds))
 	for i, d := range ds {
@@ -200,9 +266,13 @@ func (s *c07State) sweep(subjects []string) {
 func c07Property(t *rapid.T, st *Stats) {
 	dirStore := rapid.Bool().Draw(t, "dirStore")
 	limit := int64(rapid.SampledFrom([]int{0, 0, 420, 520, 700, 1000, 1500}).Draw(t, "referrerLimit"))
+	pageCache := rapid.SampledFrom([]int{0, 0, 1, 2}).Draw(t, "pageCacheLimit")
 	e, cleanup := newEnv(t, st, dirStore, func(c *config.Config) {
 		if limit > 0 {
 			c.API.Referrer.Limit = limit
+		}
+		if pageCache > 0 {
+			c.API.Referrer.PageCacheLimit = pageCache // cached listings are evicted while a client is still paging
 		}
 	})
 	defer cleanup()
@@ -561,6 +631,33 @@ func c07Property(t *rapid.T, st *Stats) {
 			e.class("listing-copied-as-index")
 			touched[sd] = true
 			touched[p.digest] = true
+		},
+		"chainStart": func(t *rapid.T) {
+			// a client starts paging through a listing and will continue later (chainStep), with other requests in between
+			rn := rapid.SampledFrom(c07Repos).Draw(t, "repo")
+			sd := rapid.SampledFrom(sortedKeys(e.subjects)).Draw(t, "subject")
+			if e.repo(rn).refFuzzy[sd] || len(s.wantSet(rn, sd, "")) < 2 || s.limit == 0 || (s.chain != nil && s.chain.next != "") {
+				t.Skip("nothing to page through, or a chain is in progress")
+			}
+			c := &c07Chain{rn: rn, sd: sd, seen: map[string]bool{}, required: map[string]bool{}, next: "/v2/" + rn + "/referrers/" + sd}
+			for d := range s.wantSet(rn, sd, "") {
+				c.required[d] = true
+			}
+			s.chain = c
+			e.logf("chainStart %s referrers/%s (%d referrers)", rn, short(sd), len(c.required))
+			s.chainStep()
+		},
+		"chainStep": func(t *rapid.T) {
+			if s.chain == nil || s.chain.next == "" {
+				t.Skip("no chain in progress")
+			}
+			s.chainStep()
+		},
+		"chainStepAgain": func(t *rapid.T) {
+			if s.chain == nil || s.chain.next == "" {
+				t.Skip("no chain in progress")
+			}
+			s.chainStep()
 		},
 		"readOdd": func(t *rapid.T) {
 			// unknown repository, malformed digest: 200 with an empty index
